@@ -142,7 +142,7 @@ HandleFrame(mm, b, maxlen, classA, pendingObs) ==
       ELSE
         LET v == j.v
             reqs == DownRequests(v)
-            base == [mm EXCEPT !.sess.down = v.n, !.sess.adrCnt = 0,
+            base == [mm EXCEPT !.sess.down = v.n, !.sess.adrCnt = AdrZero,
                                !.sess.pending = IF classA THEN <<>> ELSE mm.sess.pending]
             fo == FoldObs(base, reqs, ParseUp(pendingObs), <<>>)
             m3 == AfterRxAccepted(mm, v, fo.sts, 0)
@@ -203,10 +203,14 @@ SessOf(ss) == [nwk |-> ss.nwk, app |-> ss.app, addr |-> ss.addr, up |-> ss.up, d
                adrCnt |-> ss.adrcnt, pending |-> ss.pending, ackOwed |-> ss.ackowed = 1, confirmed |-> ss.confirmed = 1]
 \* (the recorder built with the device's certification handler says so in the reset event)
 CertBuild(e) == "cert" \in DOMAIN e /\ e.cert = 1
+\* the join bias the device was configured with (fixed plans; one try when set through set_join_bias)
+JwOf(e) == IF "bias_sb" \in DOMAIN e /\ e.bias_sb > 0
+           THEN [sb |-> e.bias_sb, max |-> IF e.bias_retries <= 1 THEN 1 ELSE e.bias_retries, n |-> 0, was |-> FALSE]
+           ELSE [sb |-> 0, max |-> 0, n |-> 0, was |-> FALSE]
 EvReset(e) ==
     /\ m' = IF e.seeded = 1 /\ e.sess.has = 1
-            THEN [InitMac(e.region, e.maxpw, e.gain) EXCEPT !.act = "joined", !.sess = SessOf(e.sess), !.cert = CertBuild(e)]
-            ELSE [InitMac(e.region, e.maxpw, e.gain) EXCEPT !.cert = CertBuild(e)]
+            THEN [InitMac(e.region, e.maxpw, e.gain) EXCEPT !.act = "joined", !.sess = SessOf(e.sess), !.cert = CertBuild(e), !.jw = JwOf(e)]
+            ELSE [InitMac(e.region, e.maxpw, e.gain) EXCEPT !.cert = CertBuild(e), !.jw = JwOf(e)]
     /\ fe' = IdleFe(e)
     /\ SnapOk(m', e)
 
@@ -481,8 +485,8 @@ ARun(s, calls, pendingObs) ==
                \* the certification answer: an ordinary unconfirmed uplink on FPort 224 with the next counter, on a
                \* legal channel / data rate / power, carrying the pending MAC answers; then the procedure ends as a time-out
                IF c.c # "tx" THEN bad("tx (certification answer)")
-               ELSE LET okr == TxRadioOk(s.m, FALSE, c) /\ UplinkBytesOk(s.m, CertPort, s.certPl, FALSE, c.bytes)
-                        mp == AfterSendPrepare(s.m, FALSE) IN
+               ELSE LET mp == AfterSendPrepare(s.m, FALSE)
+                        okr == TxRadioOk(mp, FALSE, c) /\ UplinkBytesOk(s.m, CertPort, s.certPl, FALSE, c.bytes) IN
                     IF c.out # "done" THEN [AResp([n EXCEPT !.m = mp], "ErrRadio") EXCEPT !.ok = okr]
                     ELSE [n EXCEPT !.m = AfterRx2Complete(mp), !.pending = Rx2CompleteResp(mp), !.pc = s.certNext, !.ok = okr]
           [] s.pc \in {"bw1", "bw2"} ->
